@@ -575,6 +575,9 @@ def store_subscript(E, obj, slc_node, v, node):
                 raise Unsupported('None column')
             obj.cols[idx] = E.new_arr(obj.n, _elem_type(e), (lambda i, e=e: e), 'series')
         return
+    if isinstance(obj, Opaque) and hasattr(obj, 'arr'):
+        from . import grid
+        return grid.table_setitem(E, obj, idx, v, node)
     if isinstance(obj, Arr) and getattr(obj, 'lead', None) is not None:
         from . import grid
         return grid.grid_store(E, obj, idx, v, node)
